@@ -19,11 +19,23 @@ import (
 )
 
 const (
-	repoDir  = "/repo"
-	verifDir = "/verif"
 	modPath  = "github.com/dtn7/dtn7-go"
 	buildTag = "verif"
 )
+
+// The registered checks run against /repo with the machinery in /verif. GOSYM_REPO / GOSYM_VERIF exist for
+// background exploration on snapshots (`vp run --with-repo`), never for registered evidence.
+var (
+	repoDir  = envOr("GOSYM_REPO", "/repo")
+	verifDir = envOr("GOSYM_VERIF", "/verif")
+)
+
+func envOr(k, def string) string {
+	if v := os.Getenv(k); v != "" {
+		return v
+	}
+	return def
+}
 
 func fatalf(f string, a ...interface{}) {
 	fmt.Fprintf(os.Stderr, "gosym: "+f+"\n", a...)
